@@ -268,6 +268,7 @@ out:
 		endtime = calcEndtime(startTime, blackMillisLeft, blackMillisIncrement, whiteMillisLeft, whiteMillisIncrement,
 			fullMovesToGo)
 	}
+	verifDeadline(startTime, endtime, targetDepth)
 	// forget a stop request that came too late for the previous search
 	select {
 	case <-search.stop:
